@@ -8,7 +8,7 @@
 (* carries the full projected state (key scan, persisted size record, Radius()), so the judge *)
 (* never searches: each event is evaluated against the weakest transition relation that still *)
 (* implies C04 / C05 / C06 / C17 and the names of the false conjuncts are collected in viol.   *)
-(* Conjunct ownership:  C04 intact subset unchanged stable fromPut                             *)
+(* Conjunct ownership:  C04 intact subset unchanged stable fromPut growth                      *)
 (*                      C05 farthest frees sizeRec capacity noerr                              *)
 (*                      C06 within monotone justified                                          *)
 (*                      C17 openOK openFromPut openSizeRec openSubset openFarthest openPrune   *)
@@ -71,6 +71,9 @@ PutOK(e) ==
         within    |-> Within(post, e.radius, radius),
         monotone  |-> Monotone(e.radius, radius),
         justified |-> LE => BELess(Rev(d), radius),      \* replacement conjunct: admission as coded
+        \* the usage figure grows by at most what this put brought (a pruning pass only lowers it): anything more is the trace
+        \* of an earlier REFUSED put, which "changes nothing observable" (sweep mutant G1/40-C04 counted before the radius check)
+        growth    |-> RecVal(e.sizeRec) <= RecVal(rec) + e.len,
         stable    |-> e.changed = 0 ]
 
 PutRefused(e) ==
